@@ -100,6 +100,9 @@ type Exec struct {
 	initDepth  int
 	events    []Event
 	Extern    func(x *Exec, name string, fn *ssa.Function, args []Value) (Value, bool)
+	// Foreign resolves calls through function addresses this executor does not
+	// own (code of the other front end)
+	Foreign func(fp uint64, ctx *smt.Term, args []Value) (Value, bool)
 }
 
 // Event is an observable effect recorded by stubs (file creation etc.).
@@ -838,7 +841,18 @@ func (x *Exec) doCall(fr *frame, cc *ssa.CallCommon, asDeferred bool) Value {
 		}
 		return x.call(fr, fn, args, bindings)
 	}
-	fn, ctx := x.resolveFunc(x.get(fr, cc.Value))
+	fv := x.get(fr, cc.Value)
+	if x.Foreign != nil && !asDeferred {
+		a := fv.(Agg)
+		if fp := a[0].(*smt.Term); fp.IsConst() && fp.Uint() != 0 {
+			if _, own := x.addrFunc[fp.Uint()]; !own {
+				if r, ok := x.Foreign(fp.Uint(), a[1].(*smt.Term), args); ok {
+					return r
+				}
+			}
+		}
+	}
+	fn, ctx := x.resolveFunc(fv)
 	return x.callClosure(fr, fn, ctx, args, asDeferred)
 }
 
